@@ -69,6 +69,8 @@ class Check:
         self.paths = 0
         self.extra = {}
         self._replay_cache = {}
+        self._pending = {}
+        self.unconfirmed = []
 
     # -------------------------------------------------------------- records
     def note_interp(self, I):
@@ -137,6 +139,87 @@ class Check:
             self.inconclusive.append(f"{name}: solver returned unknown (cap {self.decider.timeout_ms} ms)")
         self.obligations.append(ob)
         return verdict, model
+
+    # ------------------------------------------------- deferred (parallel) replay
+    def prove_deferred(self, name, pc, claim, site, what="", replay=None, model_desc=None, soft=False):
+        """Like prove(), but a SAT verdict is classified later by resolve_deferred(): one native replay per site,
+        run in parallel.  A site listed in known_findings is reported as KNOWN-FINDING without replaying it.
+        soft=True: the path is an over-approximation (tainted); a model that does not reproduce is only noted."""
+        verdict, model = self.decider.prove(f"{self.pid}:{name}", pc, claim)
+        ob = {"name": name, "verdict": verdict}
+        if verdict == "sat":
+            md = model_desc(model) if callable(model_desc) else str(model)[:300]
+            ob["model"] = md
+            k = self.is_known(site)
+            if k:
+                if not any(s == site for s, _ in self.known_hits):
+                    self.known_hits.append((site, k.get("what", what)))
+                ob["outcome"] = "known"
+            else:
+                p = self._pending.setdefault(site, {"replays": [], "what": what, "name": name, "model": md,
+                                                    "soft": soft, "obs": []})
+                p["soft"] = p["soft"] and soft
+                if replay and len(p["replays"]) < 12:
+                    # z3 objects are not thread-safe: everything that reads the model runs here, in the main
+                    # thread; replay(model) returns either the final dict or a thunk doing only the native work
+                    try:
+                        prepared = replay(model)
+                    except Exception as ex:
+                        prepared = {"reproduced": False, "detail": f"replay preparation raised {ex!r}"}
+                    thunk = prepared if callable(prepared) else (lambda prepared=prepared: prepared)
+                    p["replays"].append((soft, thunk, md))
+                p["obs"].append(ob)
+        elif verdict == "unknown":
+            self.inconclusive.append(f"{name}: solver returned unknown (cap {self.decider.timeout_ms} ms)")
+        self.obligations.append(ob)
+        return verdict, model
+
+    def resolve_deferred(self, workers=8):
+        from concurrent.futures import ThreadPoolExecutor
+        items = list(self._pending.items())
+
+        def run(item):
+            site, p = item
+            # several paths can share a site: try exact (untainted) paths first, a few candidates at most
+            cands = sorted(p["replays"], key=lambda t: t[0])[:4]
+            last = {"reproduced": False, "detail": "no replay available"}
+            seen = set()
+            for soft_, rp, md in cands:
+                try:
+                    last = rp()
+                except Exception as ex:
+                    last = {"reproduced": False, "detail": f"replay raised {ex!r}"}
+                if last.get("reproduced"):
+                    p["model"] = md
+                    return last
+                key = str(last.get("artefact"))
+                if key in seen:
+                    break
+                seen.add(key)
+            return last
+        with ThreadPoolExecutor(max_workers=workers) as ex:
+            reps = list(ex.map(run, items))
+        self.replays += len(items)
+        for (site, p), rep in zip(items, reps):
+            if rep.get("reproduced"):
+                d = os.path.join(VERIF, "replays", self.pid)
+                os.makedirs(d, exist_ok=True)
+                fn = os.path.join(d, hashlib.sha1(site.encode()).hexdigest()[:10] + ".json")
+                with open(fn, "w") as f:
+                    json.dump({"property": self.pid, "site": site, "what": p["what"], "model": p["model"],
+                               "artefact": rep.get("artefact"), "observed": rep.get("detail")}, f, indent=1, default=str)
+                self.violations.append((site, p["what"], fn))
+                outcome = "violation"
+            elif p["soft"]:
+                self.unconfirmed.append({"site": site, "detail": rep.get("detail", "")[:200]})
+                outcome = "unconfirmed-overapproximation"
+            else:
+                self.inconclusive.append(f"{p['name']}: solver model did not reproduce natively "
+                                         f"({rep.get('detail', '')[:300]}); model={p['model']}")
+                outcome = "not-reproduced"
+            for ob in p["obs"]:
+                ob["outcome"] = outcome
+        self._pending = {}
 
     def reach(self, name, conds):
         """Vacuity witness: the conjunction must be satisfiable."""
@@ -232,6 +315,7 @@ class Check:
                 "havocked_calls": sorted(self.havocs)[:80],
                 "known_findings_hit": [{"site": s, "what": w} for s, w in self.known_hits],
                 "inconclusive": self.inconclusive[:40],
+                "unconfirmed_candidates_on_overapproximated_paths": self.unconfirmed[:40],
                 "validation_mismatches": self.validation_mismatches[:20],
                 "status": status,
                 "exhaustive": False,
